@@ -61,7 +61,7 @@ def _rel(a, b, tol):
 
 
 def _init(stack, heights, alpha="full", **kw):
-    d = {"stack": stack, "heights": [float(h) for h in heights], "fuel_mat": "UZr", "clad_mat": "HT9", "bond": False, "tight": False, "multi": False, "fat": None, "shield_mult": None, "targets": {}, "thot": "varied", "reuse": False, "alpha": alpha}
+    d = {"stack": stack, "heights": [float(h) for h in heights], "fuel_mat": "UZr", "clad_mat": "HT9", "bond": False, "tight": False, "multi": False, "fat": None, "shield_mult": None, "duct_mat": None, "grid_mat": None, "targets": {}, "thot": "varied", "reuse": False, "alpha": alpha}
     d.update(kw)
     return d
 
@@ -80,10 +80,13 @@ def base_inits():
         out.append(_init(stack, hs, tight=True))
         alt = [10, 10, 25] if stack == "SFD" else [25, 10, 25, 10, 25]
         out.append(_init(stack, alt))
+        out.append(_init(stack, hs, fuel_mat="Custom"))  # a solid given by custom isotopics as the block's target
         if stack == "GFFPD":
+            out.append(_init(stack, hs, grid_mat="Molybdenum"))  # a solid without expansion correlation (bottom block target)
             out.append(_init(stack, hs, targets={"3": "duct"}))
             out.append(_init(stack, hs, targets={"1": "clad"}, fuel_mat="UraniumOxide", clad_mat="Inconel625", bond=True))
         else:
+            out.append(_init(stack, hs, clad_mat="Custom", duct_mat="Custom"))
             out.append(_init(stack, hs, multi=True))  # fuel pin overlaps shield pin AND clad below: two candidates
             out.append(_init(stack, hs, shield_mult=19.0))  # pins of other multiplicity below: fuel block unlinked
             # thick pellets on a shield block that follows its cladding: hollow (not reaching the slug below) / solid
@@ -107,6 +110,11 @@ def alphabet(init):
         fb = [i for i in nd if S.kinds(init)[i] == "fuel"]
         edits = [["setdim", i, "fuel", d, v] for i in fb for d, v in (("id", 0.0), ("id", 0.92), ("od", 1.05))]
         return [["presc", "clad", "u11"], ["presc", "solids", "u11"], ["presc", "fuel", "d11"], ["therm", "U550", 20]] + edits
+    if init["alpha"] == "target":
+        # re-designation of a block's target between expansions (every solid of the fuel block, the clad of block 0)
+        fb = [i for i in nd if S.kinds(init)[i] == "fuel"]
+        re_t = [["settarget", i, s_[0]] for i in fb for s_ in S.solids(init, "fuel")] + [["settarget", 0, "clad"]]
+        return [["presc", "fuel", "u11"], ["presc", "clad", "u11"], ["therm", "U550", 20]] + re_t
     if init["alpha"] == "tiny":
         ops = [["presc", "fuel", f] for f in ("p1e9", "m1e9", "p1e6", "m1e6", "p2e6", "p1e4", "m1e4")]
         ops += [["presc", "solids", f] for f in ("p1e6", "p2e6", "m1e4")]
@@ -188,7 +196,9 @@ class Model:
             self.Z.append(self.Z[-1] + h)
         self.dims = {}  # (i, component name, dimension) -> cold value edited since construction
         self.sol = [S.solids(init, k) if k != "dummy" else [] for k in self.kinds]
-        self.target = [S.designated_target(init, i) for i in range(self.n)]
+        self.target = [S.designated_target(init, i) for i in range(self.n)]  # CURRENT designation
+        self.target_last = list(self.target)  # designation in force at the last expansion
+        self.matname = {(i, c["name"]): c["material"] for i, k in enumerate(self.kinds) for c in S.block_table(init, k)}
         self.mats = mats  # {(i, name): material object}  (only linearExpansionPercent is used)
         self.T = {}
         for i, k in enumerate(self.kinds):
@@ -262,9 +272,11 @@ class Model:
         """Returns a dict describing the expected effect of ``op`` (heights etc. are committed by ``commit``)."""
         if op[0] == "setdim":
             return {"out": "ok", "edit": (op[1], op[2], op[3], float(op[4])), "g": {}}
+        if op[0] == "settarget":
+            return {"out": "ok", "retarget": (op[1], op[2]), "g": {}}
         self.relink()  # before every expansion
         if self.multi:
-            return {"out": "refused:RuntimeError", "g": {}}
+            return {"out": "refused:RuntimeError", "why": "multi", "g": {}}
         if op[0] == "presc":
             g = set_factors(self.init, op[1], op[2])
             out, newH, cz, newZ = self.predict_restack(g)
@@ -283,6 +295,14 @@ class Model:
         g = {}
         for i in range(self.n - 1):
             for name, _s, _m, _lo, _hi in self.sol[i]:
+                if self.matname[(i, name)] in S.NOCORR and abs(newT[(i, name)] - self.T[(i, name)]) > 1e-10:
+                    # no expansion correlation: a temperature change is refused (after the temperatures were assigned)
+                    return {"out": "refused:RuntimeError", "why": "nocorr", "g": {}, "T": newT}
+        for i in range(self.n - 1):
+            for name, _s, _m, _lo, _hi in self.sol[i]:
+                if self.matname[(i, name)] == S.CUSTOM or self.matname[(i, name)] in S.NOCORR:
+                    g[(i, name)] = 1.0  # custom materials never expand thermally
+                    continue
                 mat = self.mats[(i, name)]
                 p1 = mat.linearExpansionPercent(Tc=newT[(i, name)])
                 p0 = mat.linearExpansionPercent(Tc=self.T[(i, name)])
@@ -291,9 +311,13 @@ class Model:
         return {"out": out, "g": g, "H": newH, "cz": cz, "Z": newZ, "T": newT}
 
     def commit(self, pred):
-        if pred.get("edit"):
-            i, cname, dim, val = pred["edit"]
-            self.dims[(i, cname, dim)] = val
+        if pred.get("edit") or pred.get("retarget"):
+            if pred.get("edit"):
+                i, cname, dim, val = pred["edit"]
+                self.dims[(i, cname, dim)] = val
+            else:
+                i, cname = pred["retarget"]
+                self.target[i] = cname
             for k in self.mscale:  # the block's reference masses are re-taken by the driver
                 if k[0] == i:
                     self.mscale[k] = 1.0
@@ -308,6 +332,7 @@ class Model:
             self.H = pred["H"]
             self.Z = pred["Z"]
             self.cz = pred["cz"]
+            self.target_last = list(self.target)
             for i in range(self.n - 1):
                 if not self.own_chain(i):
                     self.ever_foreign[i] = True
@@ -367,6 +392,8 @@ def apply_op(a, init, op, changer):
     try:
         if op[0] == "setdim":
             a[op[1]].getComponentByName(op[2]).setDimension(op[3], float(op[4]))
+        elif op[0] == "settarget":
+            a[op[1]].setAxialExpTargetComp(a[op[1]].getComponentByName(op[2]))
         elif op[0] == "presc":
             g = set_factors(init, op[1], op[2])
             comps, percents = [], []
@@ -382,17 +409,18 @@ def apply_op(a, init, op, changer):
     except (ArithmeticError, ValueError) as e:
         return "refused:" + type(e).__name__
     except RuntimeError as e:  # the documented refusal of ambiguous linkage (expected only where the model says so)
-        return "refused:RuntimeError" if "Multiple component axial linkages" in str(e) else "error:RuntimeError:%s" % str(e)[:120]
+        documented = "Multiple component axial linkages" in str(e) or "Linear expansion percent may not be implemented" in str(e)
+        return "refused:RuntimeError" if documented else "error:RuntimeError:%s" % str(e)[:120]
     except Exception as e:  # noqa: BLE001 - anything else is reported, never swallowed
         return "error:%s:%s" % (type(e).__name__, str(e)[:120])
     return "ok"
 
 
-def canon(ob, dims=None):
+def canon(ob, dims=None, targets=None):
     def r(x):
         return float("%.9e" % x)
 
-    return [[r(b["h"])] + [[r(c["T"]), r(sum(c["nd"].values()))] for c in b["comps"]] for b in ob["blocks"]] + [sorted([list(k), v] for k, v in (dims or {}).items())]
+    return [[r(b["h"])] + [[r(c["T"]), r(sum(c["nd"].values()))] for c in b["comps"]] for b in ob["blocks"]] + [sorted([list(k), v] for k, v in (dims or {}).items()), list(targets or [])]
 
 
 # ---------------------------------------------------------------------------------------------
@@ -462,9 +490,9 @@ def check_invariants(init, m, ob, ref, case, nsteps):
                 bad("target-designation", "block %d target %r, designated %r" % (i, b["target"], m.target[i]))
                 continue
             cmap = {c["name"]: c for c in b["comps"]}
-            t = cmap[m.target[i]]
+            t = cmap[m.target_last[i]]
             if t["zt"] is None or not _rel(t["zt"], b["zt"], 1e-13):
-                bad("block-top-not-target", "block %d top %r, its target %s top %r" % (i, b["zt"], m.target[i], t["zt"]))
+                bad("block-top-not-target", "block %d top %r, its target (at the last expansion) %s top %r" % (i, b["zt"], m.target_last[i], t["zt"]))
             # linked components stay stacked bottom-on-top
             for name, _s, _mu, _lo, _hi in m.sol[i]:
                 c = cmap[name]
@@ -510,7 +538,7 @@ def check_step(init, m, pred, before, after, case, op):
         vs.append(core.viol("c12/" + key, "%s after %s: %s" % (_short(init), [_opname(o) for o in hist], msg), case))
 
     n = m.n
-    if op[0] == "setdim":  # a geometry edit moves nothing
+    if op[0] in ("setdim", "settarget"):  # a geometry edit / re-designation moves nothing
         for i in range(n):
             b0, b1 = before["blocks"][i], after["blocks"][i]
             if (b0["zb"], b0["zt"], b0["h"]) != (b1["zb"], b1["zt"], b1["h"]) or before["bounds"] != after["bounds"]:
@@ -650,11 +678,11 @@ def expand(item):
             out = pout
             if pout != "ok":
                 break
-            if prim[0] != "setdim":
+            if prim[0] not in ("setdim", "settarget"):
                 n_exp += 1
             if q == len(prims) - 1 or (last and q >= len(prims) - 3):
                 obs[len(prim_hist)] = observe(a, init)
-            if prim[0] == "setdim":
+            if prim[0] in ("setdim", "settarget"):
                 now = obs.get(len(prim_hist)) or observe(a, init)
                 for c in now["blocks"][prim[1]]["comps"]:
                     ref[(prim[1], c["name"])] = c["mass"]
@@ -667,15 +695,15 @@ def expand(item):
         # a refusal: ArithmeticError leaves a partially restacked assembly (documented abort) - not examined;
         # ValueError (a block without temperature points) must not have moved anything
         prev = obs.get(np_ - 1)
-        if out == "refused:ValueError" and prev is not None:
+        if (out == "refused:ValueError" or (out == "refused:RuntimeError" and pred.get("why") == "nocorr")) and prev is not None:
             now = observe(a, init)
             for i, (b1, b0) in enumerate(zip(now["blocks"], prev["blocks"])):
                 if (b1["zb"], b1["zt"], b1["h"]) != (b0["zb"], b0["zt"], b0["h"]) or now["bounds"] != prev["bounds"]:
-                    viols.append(core.viol("c12/refusal-moved-mesh", "%s after %s: refused with ValueError but block %d moved" % (_short(init), hs, i), case))
+                    viols.append(core.viol("c12/refusal-moved-mesh", "%s after %s: refused (%s) but block %d moved" % (_short(init), hs, out, i), case))
                     break
             temps_changed = any(c1["T"] != c0["T"] for b1, b0 in zip(now["blocks"], prev["blocks"]) for c1, c0 in zip(b1["comps"], b0["comps"]))
             return {"canon": ["refused", hist], "full": None, "viols": viols, "ops": [], "out": out, "terminal": True, "partial_T": temps_changed}
-        if out == "refused:RuntimeError" and prev is not None and observe(a, init) != prev:
+        if out == "refused:RuntimeError" and pred.get("why") == "multi" and prev is not None and observe(a, init) != prev:
             viols.append(core.viol("c12/refusal-changed-state", "%s after %s: ambiguous linkage refused with RuntimeError but the assembly changed" % (_short(init), hs), case))
         return {"canon": ["refused", hist], "full": None, "viols": viols, "ops": [], "out": out, "terminal": True}
     viols += check_invariants(init, m, obs[np_], ref, case, n_exp)
@@ -687,7 +715,7 @@ def expand(item):
             viols += check_restore(init, m, obs[np_], obs[j], j, case)
         else:
             j = None
-    return {"canon": canon(obs[np_], m.dims), "full": None, "viols": viols, "ops": alphabet(init), "out": out, "restore_checked": j is not None}
+    return {"canon": canon(obs[np_], m.dims, m.target), "full": None, "viols": viols, "ops": alphabet(init), "out": out, "restore_checked": j is not None}
 
 
 def evaluate(case):
@@ -773,12 +801,14 @@ def plan(ctx):
             ("fat-pellet inits x edit alphabet (cold-dimension edits between expansions), depth 3", with_alpha(fat, "edit"), 3),
             ("SFD flat x tiny-step alphabet (incl. 10x/100x repetition), depth 2", with_alpha(flat[:1], "tiny"), 2),
             ("GFFPD base x tiny-step alphabet, depth 1", with_alpha([base[g0]], "tiny"), 1),
+            ("SFD base and SFD clad-driven x target re-designation alphabet, depth 3", with_alpha([base[0], base[4]], "target"), 3),
         ]
     return [
         ("all inits x full alphabet, depth 2", with_alpha([dict(b, reuse=(i % 2 == 0)) for i, b in enumerate(base)], "full"), 2),
         ("all inits x reduced alphabet, depth 4", with_alpha(base, "reduced"), 4),
         ("SFD base x full alphabet, depth 3, twin with one reused changer", with_alpha([dict(base[0], reuse=True)], "full"), 3),
         ("fat-pellet inits x edit alphabet, depth 4", with_alpha(fat, "edit"), 4),
+        ("4 inits x target re-designation alphabet, depth 4", with_alpha([base[0], base[4], base[g0], base[g0 + 4]], "target"), 4),
         ("4 inits x tiny-step alphabet, depth 2", with_alpha(flat + [base[0], base[g0]], "tiny"), 2),
     ]
 
